@@ -3,7 +3,8 @@
    un-simplified multi-source expression, dataset-weight-factor-multi-sources-
    with-source-weight-coefficient; section "Stacking of Sources", eq.
    SiStackingA), transcribed independently of the code over R.
-   a : table of the coefficients a_jk = W_k * Y_jk, one row per dataset j, one
+   a : table of the coefficients a_jk = W_k * Y_jk (the manual writes the un-simplified sum for the yields Y;
+   with the source weights W it is the manual's last equation), one row per dataset j, one
    column per source k (K columns). *)
 From Coq Require Import Reals List.
 From Sky Require Import S_Llh.
